@@ -396,15 +396,16 @@ theorem isRunning_gone (o : Obj) : GoneRet o.pid (Fe.isRunning (goodCfg r) o) :=
   simp only [this, pure_eq, M.pure]
   exact ⟨_, s1, rfl, hc1⟩
 
-theorem raiseIfPidReused_gone (o : Obj) : GoneRet o.pid (Fe.raiseIfPidReused (goodCfg r) o) := by
+/-- `_raise_if_pid_reused` on a gone process: is_running() answers False and sets `_gone`, and
+    the `_gone` test raises NoSuchProcess(pid) -/
+theorem raiseIfPidReused_gone (o : Obj) : GoneNSP o.pid (Fe.raiseIfPidReused (goodCfg r) o) := by
   intro c s ha hg hc
   obtain ⟨a, s1, hr, hc1⟩ := isRunning_gone r o c s ha hg hc
   unfold Fe.raiseIfPidReused
   simp only [bind_eq, M.bind, hr]
   obtain ⟨run, reu⟩ := a
-  -- the pair returned for a gone process is (false, false): no raise
+  -- the pair returned for a gone process is (false, false)
   have hval : (run, reu) = (false, false) := by
-    have h2 := isRunning_gone r o c s ha hg hc
     obtain ⟨s0, hr0, _⟩ := bind_nsp (fun o' => (pure (some (some o')) : M (Option (Option Obj))))
       (mkProcess_gone r o.pid) c s ha hg hc
     unfold Fe.isRunning at hr
@@ -418,12 +419,18 @@ theorem raiseIfPidReused_gone (o : Obj) : GoneRet o.pid (Fe.raiseIfPidReused (go
     exact h1.symm
   injection hval with h1 h2
   subst h1; subst h2
-  simp only [Bool.not_false, Bool.and_false, Bool.false_eq_true, ↓reduceIte, pure_eq, M.pure]
-  exact ⟨(), s1, rfl, hc1⟩
+  have hgd : (goodCfg r).goneGuard = true := rfl
+  simp only [hgd, Bool.not_false, Bool.and_false, Bool.and_self, Bool.false_eq_true, ↓reduceIte, throw]
+  exact ⟨s1, rfl, hc1⟩
 
 theorem fe_ppid_gone (o : Obj) : GoneNSP o.pid (Fe.ppid (goodCfg r) o) := by
   unfold Fe.ppid
-  exact memoIf_nsp _ _ _ (bind_ret_nsp o.pid (raiseIfPidReused_gone r o) (fun _ => ppid_gone r o.pid))
+  exact memoIf_nsp _ _ _ (bind_nsp _ (raiseIfPidReused_gone r o))
+
+/-- children() of a gone process raises NoSuchProcess (through the `_gone` test) -/
+theorem children_gone (o : Obj) : GoneNSP o.pid (Fe.children (goodCfg r) o) := by
+  unfold Fe.children
+  exact bind_nsp _ (raiseIfPidReused_gone r o)
 
 theorem fe_name_gone (o : Obj) : GoneNSP o.pid (Fe.name (goodCfg r) o) := by
   unfold Fe.name; exact bind_nsp _ (name_gone r o.pid)
@@ -447,10 +454,11 @@ theorem fe_uids_gone (o : Obj) : GoneNSP o.pid (Fe.uids (goodCfg r) o) := by
 def GoneOK (o : Obj) (nm : String) : Prop := ∃ m, Fe.method (goodCfg r) o nm = some m ∧ GoneNSP o.pid m
 
 /-- the queries `C03_gone_is_NSP` covers: every modelled public query except the documented
-    exemptions of `Spec.goneExempt` and parent() (answers None for the lowest pid) -/
+    exemptions of `Spec.goneExempt` (pid, create_time, is_running) and parent() (answers None for the lowest pid) -/
 def goneCovered : List String :=
-  ["ppid", "name", "exe", "cmdline", "status", "username", "cwd", "nice", "uids", "gids", "terminal", "num_fds", "io_counters", "ionice", "cpu_affinity", "cpu_num", "environ", "num_ctx_switches", "num_threads", "threads", "cpu_times", "cpu_percent", "memory_info", "memory_full_info", "memory_percent", "memory_maps", "open_files", "net_connections"]
+  ["children", "ppid", "name", "exe", "cmdline", "status", "username", "cwd", "nice", "uids", "gids", "terminal", "num_fds", "io_counters", "ionice", "cpu_affinity", "cpu_num", "environ", "num_ctx_switches", "num_threads", "threads", "cpu_times", "cpu_percent", "memory_info", "memory_full_info", "memory_percent", "memory_maps", "open_files", "net_connections"]
 
+theorem gone_children (o : Obj) : GoneOK r o "children" := ⟨_, rfl, children_gone r o⟩
 theorem gone_ppid (o : Obj) : GoneOK r o "ppid" := ⟨_, rfl, bind_nsp _ (fe_ppid_gone r o)⟩
 theorem gone_name (o : Obj) : GoneOK r o "name" := ⟨_, rfl, fe_name_gone r o⟩
 theorem gone_exe (o : Obj) : GoneOK r o "exe" := ⟨_, rfl, fe_exe_gone r o⟩
@@ -481,8 +489,9 @@ theorem gone_open_files (o : Obj) : GoneOK r o "open_files" := ⟨_, rfl, bind_n
 theorem gone_net_connections (o : Obj) : GoneOK r o "net_connections" := ⟨_, rfl, bind_nsp _ (netConnections_gone r o.pid)⟩
 
 theorem gone_all (o : Obj) : ∀ nm ∈ goneCovered, GoneOK r o nm :=
-  show ∀ nm ∈ ["ppid", "name", "exe", "cmdline", "status", "username", "cwd", "nice", "uids", "gids", "terminal", "num_fds", "io_counters", "ionice", "cpu_affinity", "cpu_num", "environ", "num_ctx_switches", "num_threads", "threads", "cpu_times", "cpu_percent", "memory_info", "memory_full_info", "memory_percent", "memory_maps", "open_files", "net_connections"], GoneOK r o nm from
-  List.forall_mem_cons.2 ⟨gone_ppid r o,
+  show ∀ nm ∈ ["children", "ppid", "name", "exe", "cmdline", "status", "username", "cwd", "nice", "uids", "gids", "terminal", "num_fds", "io_counters", "ionice", "cpu_affinity", "cpu_num", "environ", "num_ctx_switches", "num_threads", "threads", "cpu_times", "cpu_percent", "memory_info", "memory_full_info", "memory_percent", "memory_maps", "open_files", "net_connections"], GoneOK r o nm from
+  List.forall_mem_cons.2 ⟨gone_children r o,
+    List.forall_mem_cons.2 ⟨gone_ppid r o,
     List.forall_mem_cons.2 ⟨gone_name r o,
     List.forall_mem_cons.2 ⟨gone_exe r o,
     List.forall_mem_cons.2 ⟨gone_cmdline r o,
@@ -510,6 +519,6 @@ theorem gone_all (o : Obj) : ∀ nm ∈ goneCovered, GoneOK r o nm :=
     List.forall_mem_cons.2 ⟨gone_memory_maps r o,
     List.forall_mem_cons.2 ⟨gone_open_files r o,
     List.forall_mem_cons.2 ⟨gone_net_connections r o,
-    (fun _ h => nomatch h)⟩⟩⟩⟩⟩⟩⟩⟩⟩⟩⟩⟩⟩⟩⟩⟩⟩⟩⟩⟩⟩⟩⟩⟩⟩⟩⟩⟩
+    (fun _ h => nomatch h)⟩⟩⟩⟩⟩⟩⟩⟩⟩⟩⟩⟩⟩⟩⟩⟩⟩⟩⟩⟩⟩⟩⟩⟩⟩⟩⟩⟩⟩
 
 end Psutil.C03
